@@ -137,6 +137,7 @@ pub fn peephole_compile<'a>(
   let lines = hooks.manage(&*lines);
 
   assert_eq!(lines.len(), instructions.len());
+  hooks.pop_roots(2);
 
   Ok(fun_builder.build(Chunk::new(instructions, constants, lines)))
 }
